@@ -173,13 +173,6 @@ func (v *FnVerifier) entryArr(name string, s Sort) Term {
 	if !v.declared[name] {
 		v.declared[name] = true
 		v.arrAxioms(t, s, v.now0)
-		// the heap is closed at function entry: every reference stored anywhere names an object
-		// that already exists (or nil)
-		if s.IsArray() {
-			if idx, val := s.ArrParts(); idx == SRef && val == SRef {
-				v.ctx.AssertRaw(fmt.Sprintf("(assert (forall ((r Ref)) (! (< (birth (select %s r)) %s) :pattern ((select %s r)))))", t.S, v.now0.S, t.S))
-			}
-		}
 	}
 	return t
 }
@@ -193,6 +186,12 @@ func (v *FnVerifier) arrAxioms(a Term, s Sort, now Term) {
 	idx, val := s.ArrParts()
 	if idx != SRef {
 		return
+	}
+	if val == SRef {
+		// the heap is closed at every moment: an object that exists holds only references to
+		// objects that exist (or nil). Only for existing objects: this version of the array
+		// also carries the contents of objects allocated later by callees that do not write it.
+		v.ctx.AssertRaw(fmt.Sprintf("(assert (forall ((r Ref)) (! (=> (< (birth r) %s) (< (birth (select %s r)) %s)) :pattern ((select %s r)))))", now.S, a.S, now.S, a.S))
 	}
 	if val.IsArray() { // map rows: the nil map is empty
 		if _, vv := val.ArrParts(); vv == SBool {
@@ -236,14 +235,11 @@ func (v *FnVerifier) typeInv(val Term, st *State, quiet bool) {
 		return
 	}
 	if val.Sort == SRef {
+		// every reference stored anywhere names an object that exists by now; that references
+		// read from objects that existed at entry are themselves that old is the (guarded)
+		// closedness axiom of entryArr, not assumed here: an unwritten array version also holds
+		// the contents of objects a callee allocated
 		now := st.now
-		// a reference read from an array that has not been written since function entry
-		// was already stored there at entry, so the object it names is older than the entry clock
-		if strings.Contains(val.S, "!0| ") || strings.Contains(val.S, "!0 ") {
-			if strings.HasPrefix(val.S, "(select ") && !strings.Contains(val.S[8:], "!") || entryOnly(val.S) {
-				now = v.now0
-			}
-		}
 		v.ctx.Assert(T(SBool, "(< (birth %s) %s)", val.S, now.S))
 	}
 }
